@@ -56,6 +56,9 @@ def naming_space(tier):
     from mc.vlog.lexer import RESERVED_2005
     for word in sorted(RESERVED_2005):
         out.append(('resv', word))
+    # clock drivers built with / without their optional clock wire, on a sub-block and on the system itself
+    for v in ('sub_wire', 'sub_nowire', 'top_nowire', 'sub_nowire_gated', 'two_subs_nowire'):
+        out.append(('clkdrv', v))
     return out
 
 
@@ -72,6 +75,33 @@ def build_naming(g):
         py4hw.And2(W, 'g0', x, y, lw)
         py4hw.Reg(W, c0, lw, z)
         return hw, ['w_x', 'w_y']
+    if g[0] == 'clkdrv':
+        v = g[1]
+        x, z, z2 = hw.wire('x'), hw.wire('z'), hw.wire('z2')
+        W = Logic(hw, 'dut')
+        W.addIn('p_in', x)
+        W.addOut('p_out', z)
+        py4hw.Reg(W, 'r0', x, z)
+        py4hw.Reg(hw, 'rtop', z, z2)
+        if v == 'sub_wire':
+            ck = hw.wire('clk25')
+            py4hw.Buf(hw, 'ckbuf', x, ck)
+            W.clockDriver = py4hw.ClockDriver('clk25', 25E6, wire=ck)
+        elif v == 'sub_nowire':
+            W.clockDriver = py4hw.ClockDriver('clk25', 25E6)
+        elif v == 'sub_nowire_gated':
+            W.clockDriver = py4hw.ClockDriver('gclk', base=hw.clockDriver, enable=x)
+        elif v == 'two_subs_nowire':
+            W.clockDriver = py4hw.ClockDriver('clk25', 25E6)
+            W2 = Logic(hw, 'dut2')
+            W2.addIn('p_in', z)
+            z3 = hw.wire('z3')
+            W2.addOut('p_out', z3)
+            py4hw.Reg(W2, 'r0', z, z3)
+            W2.clockDriver = py4hw.ClockDriver('clk50', 50E6)
+        else:
+            hw.clockDriver = py4hw.ClockDriver('sysclk', 1E6)
+        return hw, ['w_x']
     if g[0] == 'resv':
         word = g[1]
         x, z = hw.wire('x'), hw.wire('z')
